@@ -31,7 +31,7 @@ func enum(tier string) [][]gen.Shape {
 	return enumQ
 }
 
-var entries = []string{"reader", "reader-discard", "reader-nohandler", "reader-lazyhandler", "reader-ctlhandler", "reader-maxframe", "nextreader", "readmessage", "readdata", "readtext", "readbinary"}
+var entries = []string{"reader", "reader-discard", "reader-discard-utf8", "reader-nohandler", "reader-lazyhandler", "reader-ctlhandler", "reader-maxframe", "nextreader", "readmessage", "readdata", "readtext", "readbinary"}
 var bufs = []int{1, 2, 7, 64, 4096, 65536, drive.CopyBuf}
 
 // checkStream runs one frame sequence through every entry point under several
@@ -43,6 +43,7 @@ func checkStream(c *mon.C, shapes []gen.Shape, side ref.Side, nplans int) bool {
 	if !ascii {
 		framesB = gen.Build(shapes, side, c.Rng, false)
 	}
+	framesU := gen.BuildUTF8(shapes, side, c.Rng)
 	if side == ref.SideNone {
 		// zero state: no mask rule; mask some frames anyway.
 		for i := range framesA {
@@ -82,12 +83,30 @@ func checkStream(c *mon.C, shapes []gen.Shape, side ref.Side, nplans int) bool {
 					o.Discard[m] = c.Rng.Intn(5)
 				}
 			}
+		case "reader-discard-utf8":
+			// UTF-8 checking on, messages made of multi-byte characters, a few bytes read (so that reading
+			// stops inside a character), then Discard: the next message must be delivered as by a new reader
+			o.Entry, o.CheckUTF8 = "reader", true
+			frames = framesU
+			o.Discard = map[int]int{}
+			for m := 0; m < nMsg; m++ {
+				if c.Rng.Intn(2) == 0 {
+					o.Discard[m] = c.Rng.Intn(6)
+				}
+			}
 		case "reader-nohandler":
 			o.Entry, o.Intermediate = "reader", 2
 		case "reader-lazyhandler":
 			o.Entry, o.Intermediate = "reader", 1
+		case "readmessage", "readdata", "readtext":
+			if c.Rng.Intn(2) == 0 {
+				frames = framesU // these helpers validate text: characters split across fragments, reads and control frames
+			}
 		case "reader-ctlhandler":
 			o.Entry, o.Intermediate, o.CheckUTF8 = "reader", 3, true
+			if c.Rng.Intn(2) == 0 {
+				frames = framesU
+			}
 		case "reader-maxframe":
 			// MaxFrameSize equal to the largest frame of the stream (or one more): nothing may be refused
 			o.Entry = "reader"
@@ -258,7 +277,7 @@ func main() {
 		Property: "C04",
 		Level:    "exploration",
 		Rule: "cases: every state-machine-valid complete frame sequence up to depth 3 (quick; alphabet {text,binary,cont} x fin x len{0,1,3} + {ping,pong} x len{0,2}) or depth 5 (thorough; len{0,2}), on server/client/zero side, then seeded random sequences of up to 40 frames with payloads across 125/126, 4096 and 65535/65536, and six stream shapes with messages around 1 MiB and 2 MiB (unfragmented, fragmented with the big part first / last / in the middle, control frames in between); " +
-			"each stream is run through 11 consumer configurations (manual Reader with full/lazy/no/ControlFrameHandler intermediate handler, with Discard, and with MaxFrameSize equal to the largest frame, NextReader, ReadMessage, ReadData, Read*Text, Read*Binary) x 3 chunk plans x 2 caller buffer sizes and compared with the reference reassembly, clean EOF, full consumption, OnContinuation count and pong replies. " +
+			"each stream is run through 12 consumer configurations (manual Reader with full/lazy/no/ControlFrameHandler intermediate handler, with Discard, with Discard after a few bytes of a text message made of multi-byte characters under UTF-8 checking, and with MaxFrameSize equal to the largest frame, NextReader, ReadMessage, ReadData, Read*Text, Read*Binary) x 3 chunk plans x 2 caller buffer sizes and compared with the reference reassembly, clean EOF, full consumption, OnContinuation count and pong replies. " +
 			"distinct = (frame-shape signature with bucketed lengths, entry, plan kind, side).",
 		Assumptions: []string{"reference reassembly ref.Reassemble and frame encoder ref.Frame.Encode are correct", "NextReader drops intermediate control frames and ReadMessage returns them before the glued message, as documented"},
 		Subs:        []mon.Sub{subEnum(), subRandom(), subLarge()},
